@@ -16,9 +16,13 @@ static compact_theta_sketch make(const Line& t) {
   return compact_theta_sketch(empty, ordered, sh, theta, std::move(entries));
 }
 
+// the stored entries: the iterator of the owning sketch skips zero entries (never present in a valid image, but a corrupted compressed
+// image with a zero first delta is accepted and holds one), the wrapped view lists them; the model lists what is stored
+static void list_entries(const compact_theta_sketch& s, std::vector<uint64_t>& es) { for (uint64_t e : s.entries_) es.push_back(e); }
+static void list_entries(const wrapped_compact_theta_sketch& s, std::vector<uint64_t>& es) { for (auto e : s) es.push_back(e); }
 template<typename S> static void show(const S& s, Out& o) {
   o.R(s.is_empty()); o.R(s.is_ordered()); o.R(s.get_seed_hash()); o.R((I)s.get_theta64());
-  std::vector<uint64_t> es; for (auto e : s) es.push_back(e);
+  std::vector<uint64_t> es; list_entries(s, es);
   o.R((I)es.size());
   for (auto e : es) o.R((I)e);
 }
